@@ -230,14 +230,16 @@ CHECKS = {
           "length field, corrupt compressed data, an undecodable payload, a truncated header, resetting before the server looks, staying silent, "
           "failing authentication} x {threaded, thread-pool, forking} x {no authenticator, token authenticator}; after each history a fresh "
           "well-behaved client must be accepted and answered by its own service instance, the accept loop and pool threads must be alive, "
-          "earlier well-behaved clients must have been answered. Counterexample histories are re-executed by CPython on the real server.py; "
+          "earlier well-behaved clients must have been answered. O2: the errno of a failing accept() is a solver Int -- on every path where the "
+          "server stops accepting, z3 must prove it is none of the errnos clients can provoke. Counterexample histories are re-executed by CPython on the real server.py; "
           "the defects found are also demonstrated on real sockets (live/)."),
     note=("Reduced scope, as DESIGN.md states: the decision variables are the history and the fault kind (finite, explored exhaustively by the "
           "path explorer); the byte strings of misbehaving clients are concrete representatives per failure class -- arbitrary bytes at the "
           "connection level are C04/C05/C07/C08 -- so the solver decides no data here. One settled interleaving per history; real kernels, "
           "descriptor exhaustion, a pool worker pinned by a partial frame that never completes, one-shot and gevent servers are outside. "
           "Trusted: the environment model (props/srv_world.py), interpreter (validated against CPython on 32 histories every run). "
-          "Known finding: a thread-pool server authenticates on its accept thread."),
+          "Known finding: a thread-pool server authenticates on its accept thread. A genuine defect (client-provocable accept() errors shut the "
+          "server down) was found by O2 and repaired in /repo."),
     technique="bounded symbolic execution of server.py over a modelled socket/thread/process environment (history and fault kind as decision variables); replay on CPython, live demonstration on real sockets"),
  "C17": dict(
     category="other", design_ref="DESIGN.md section 4 (C17)",
